@@ -29,6 +29,23 @@ Theorem C07_generated_predict_trajectory :
 Proof. exact gen_predict_trajectory_model. Qed.
 Print Assumptions C07_generated_predict_trajectory.
 
+(* with the window the source itself uses (min_samples_ of the fitted pipeline) the only premise left is that the data pass
+   the checks the source makes *)
+Theorem C07_generated_predict_trajectory_min_samples :
+  forall (T : Type) (O : ops T) (f : fitted T) (coef : list (list T))
+         (relift ret_lifted ret_input : bool) (call : option bool) (X0_or_X : list (list T)) (U : option (list (list T))),
+  let w := min_samples (f_stage f) in
+  let c := eff f call in
+  let eps := gen_split_state_input_episodes T (fst (f_dims f)) w c (of_raw O c X0_or_X) (option_map (of_raw O c) U) in
+  forallb (fun e => gen_episode_checks T w (fst (snd e)) (snd (snd e))) eps = true ->
+  to_raw O c (gen_predict_trajectory T (op_t0 O) (lift_state O f (Some false)) (lift_input O f (Some false))
+                (retract_state O f (Some false)) (affine_model T O f coef)
+                (fst (f_dims f)) (fst (f_out f)) (snd (f_out f)) w
+                relift ret_lifted ret_input (f_ep f) call (of_raw O c X0_or_X) (option_map (of_raw O c) U))
+  = predict_trajectory O f coef w relift ret_lifted ret_input call X0_or_X U.
+Proof. exact gen_predict_trajectory_model_min_samples. Qed.
+Print Assumptions C07_generated_predict_trajectory_min_samples.
+
 (* the per-episode checks of the source are: min_samples_ initial samples and at least min_samples_ input samples *)
 Theorem C07_generated_checks : forall (T : Type) (w : nat) (X0 U : list (list T)),
   gen_episode_checks T w X0 U = true <-> length X0 = w /\ w <= length U.
